@@ -48,8 +48,13 @@ PROP = {'engine': 'c15',
                  'a delayed crash (block cache timer, spawned goroutines) is attributed to the window of at most 32 inputs the node received '
                  'since its monitors last found it healthy; the replay re-executes the window on a fresh fixture node',
                  'expiration times of transactions sent to handleTxsMsg are relative to the wall clock at execution (the handler compares with time.Now)',
-                 'connection closed-vs-kept is recorded, not judged'],
+                 'connection closed-vs-kept is recorded, not judged; a node that keeps waiting for a silent or partial remote is judged by state, not by '
+                 'time: if its end of the connection has no read deadline armed (and stays so for 5 s, to let Peer.Run arm its own after an accepted '
+                 'handshake) nothing bounds the wait -> node-unresponsive:<surface>:waits-for-remote-without-read-deadline',
+                 'surface e: the probe frame after an accepted dial is encrypted under the session key read from the node\'s peer object (tag-only '
+                 'accessor), so the harness does not model the key derivation; the listener always takes the node\'s hello off the pipe first '
+                 '(a pipe has no buffer, a TCP listener\'s kernel would take it)'],
  'min_cases': {'quick': 2500, 'thorough': 60000},
- 'min_stats': {'quick': {'alloc_checks': 2500, 'goroutine_checks': 60, 'connections_a': 300, 'connections_b': 300, 'connections_e': 300, 'e_handshakes_accepted': 30, 'e_handshakes_refused': 200, 'e_probes_delivered_after_dial': 20, 'e_node_hellos_well_formed': 300, 'c_messages_sent': 1000, 'd_blocks_inserted': 100, 'd_txs_verified': 100, 'd_confirm_packets_inserted': 50},
+ 'min_stats': {'quick': {'alloc_checks': 2500, 'goroutine_checks': 60, 'connections_a': 300, 'connections_b': 300, 'connections_e': 300, 'e_handshakes_accepted': 30, 'e_handshakes_refused': 200, 'e_probes_delivered_after_dial': 20, 'e_node_hellos_well_formed': 300, 'a_node_waits_under_a_read_deadline': 20, 'e_node_waits_under_a_read_deadline': 20, 'c_messages_sent': 1000, 'd_blocks_inserted': 100, 'd_txs_verified': 100, 'd_confirm_packets_inserted': 50},
                'thorough': {'alloc_checks': 50000, 'goroutine_checks': 1000}},
  'timeout_s': {'quick': 900, 'thorough': 10800}}
